@@ -276,3 +276,73 @@ def gen_keyword_irs(r, n):
             ir["returns"]["return_type"]["doc"] = text
         out.append(ir)
     return out
+
+
+# ----------------------------------------------------------------------------------------------
+# numeric stream: defaults whose repr is unusual — exponent notation with + / -, many digits, inf / nan, negative zero, huge ints,
+# complex with exponent parts — each kind in first / middle / last position over a run
+# ----------------------------------------------------------------------------------------------
+NUM_DEFAULTS = [
+    ("float", 1e20), ("float", 2.5e16), ("float", 1e16), ("float", -1e20), ("float", 1e-10), ("float", 5e-324), ("float", -2.5e-7),
+    ("float", 123456789.125), ("float", 0.1 + 0.2), ("float", -0.0), ("float", float("inf")), ("float", float("-inf")), ("float", float("nan")),
+    ("Optional[float]", 1e20), ("Union[int, float]", 2.5e16), ("Optional[float]", 1e-10), ("Union[float, str]", 1e20),
+    ("int", 10 ** 30), ("int", -10 ** 30), ("Optional[int]", 10 ** 30), ("complex", 1e20j), ("complex", 1e-10j),
+]
+NUM_RET_SOURCES = ["1e+20", "2.5e+16", "1e-10", "-1e+20", "123456789.125", "10 ** 30", "K"]
+
+
+def num_shape(v):
+    """what is unusual about the repr of a numeric default"""
+    import math
+
+    if isinstance(v, bool) or not isinstance(v, (int, float, complex)):
+        return "none"
+    if isinstance(v, int):
+        return "bigint" if abs(v) >= 10 ** 18 else "plain"
+    if isinstance(v, float):
+        if math.isnan(v):
+            return "nan"
+        if math.isinf(v):
+            return "inf"
+        if v == 0.0 and math.copysign(1.0, v) < 0:
+            return "negzero"
+    r = repr(v)
+    if "e+" in r:
+        return "exp+"
+    if "e-" in r:
+        return "exp-"
+    if len(r.replace("-", "").replace(".", "")) >= 12:
+        return "many-digits"
+    return "plain"
+
+
+def num_shape_json(d):
+    """the same on the JSON encoding of a default"""
+    if not d or d.get("t") not in ("int", "float", "complex"):
+        return "none"
+    try:
+        return num_shape({"int": int, "float": float, "complex": complex}[d["t"]](d["v"]))
+    except ValueError:
+        return "none"
+
+
+def gen_numeric_irs(r, n):
+    """1-3 parameters, all with defaults; interface k puts NUM_DEFAULTS[k + 7 i] in position i, so over len(NUM_DEFAULTS) consecutive
+    interfaces every kind occurs in every position (first / middle / last) of every shape; plain neighbours in between; some return entries
+    whose default is the source of a number"""
+    out = []
+    N = len(NUM_DEFAULTS)
+    for k in range(n):
+        m = (1, 2, 3, 3, 3)[k % 5]
+        names = r.sample(NAMES, m)
+        params = OrderedDict()
+        plain_at = r.randrange(m) if m == 3 and r.random() < 0.4 else None
+        for i, nm in enumerate(names):
+            typ, d = NUM_DEFAULTS[(k + 7 * i) % N] if i != plain_at else r.choice([("int", 5), ("float", 0.5), ("str", "foo")])
+            params[nm] = OrderedDict((("doc", r.choice(MORE_DOCS)), ("typ", typ), ("default", d)))
+        ret = None
+        if r.random() < 0.35:
+            ret = OrderedDict((("return_type", OrderedDict((("doc", r.choice(MORE_DOCS)), ("typ", r.choice(["float", "Optional[float]", "List[float]"])),
+                                                            ("default", r.choice(NUM_RET_SOURCES))))),))
+        out.append({"name": "F", "doc": r.choice(["", "Summary line."]), "params": params, "returns": ret, "type": r.choice(["static", "static", "self"])})
+    return out
